@@ -446,7 +446,13 @@ class Machine(RuleBasedStateMachine):
                            lambda: lst.__delitem__(sl), 'ok')
             return
         # ---- scalar arrays
-        evals = st.lists(scalar_args(self.ctx, m.type), max_size=4)
+        base = self.schema.resolve(m.type)
+        good = (gen._int_strategy(base) if isinstance(base, str) and not NUMERIC[base][2] else
+                st.sampled_from([x[1] for x in base.members]) if isinstance(base, Enum) else
+                st.floats(width=32, allow_nan=False, allow_infinity=False))
+        # mostly all-valid lists (sized around the limit), sometimes lists holding bad elements
+        evals = st.one_of(st.lists(good, max_size=(limit or 4) + 2), st.lists(good, max_size=(limit or 4) + 2),
+                          st.lists(scalar_args(self.ctx, m.type), max_size=4))
 
         def checked(values):
             out = []
@@ -641,7 +647,7 @@ def gen_opts():
 
 
 def worker(widx, seed, tier, stats):
-    n, steps = {'quick': (60, 30), 'thorough': (2500, 60)}[tier]
+    n, steps = {'quick': (200, 30), 'thorough': (2500, 60)}[tier]
     M = make_machine(gen_opts(), stats)
     try:
         run_state_machine_as_test(hypothesis.seed(seed)(M), settings=runner.hyp_settings(n, True, steps))
